@@ -12,7 +12,9 @@ from harness import tlc
 from drivers import websession_exec as X
 
 # listeners for the extra host forms
-X.HOSTS.update({'hi': ('xn--bcher-kva.test', '10.0.1.1'), 'h4': ('10.0.1.2', '10.0.1.2'), 'h6': ('::1', '::1')})
+X.HOSTS.update({'hi': ('xn--bcher-kva.test', '10.0.1.1'), 'h4': ('10.0.1.2', '10.0.1.2'), 'h6': ('::1', '::1'),
+                # a host whose name merely ends in another host's name (a sub-domain of h1, and a look-alike)
+                'hs': ('sub.h1.test', '10.0.1.3'), 'hx': ('xh1.test', '10.0.1.4')})
 
 UI = {'none': ('', None), 'user': ('user@', None), 'userpw': ('user:pw@', ('user', 'pw')),
       'enc': ('us%40er:p%3Aw@', ('us@er', 'p:w')), 'crlf': ('u%0d%0a:p%0d%0a@', ('u\r\n', 'p\r\n')),
@@ -98,6 +100,8 @@ def run_one(sc):
     c = sc['text']
     use = sc['use']
     if use == 'cookie':
+        if c['cookie'].startswith('host-only->'):
+            return run_related_host_case(c['cookie'].split('>')[1])
         return run_cookie_case(c['cookie'])
     text = render(c)
     ascii_only = all(ord(ch) < 128 for ch in text)
@@ -176,6 +180,29 @@ COOKIE_VALUES = {'plain': b'v1', 'space': b'a b', 'tab': b'a\tb', 'quote': b'"a 
                  'pct': b'%0D%0AX-Evil:%201'}
 
 
+def run_related_host_case(target):
+    """h1 sets a host-only cookie (no Domain attribute), then redirects to a host whose NAME is related to h1's
+    (sub-domain / suffix look-alike): the cookie belongs to h1 alone."""
+    from drivers.websession import expected
+    U = lambda h, p: {'scheme': 'http', 'host': h, 'port': 'def', 'path': p, 'creds': False}
+    script = {'start': U('h1', 'a'), 'maxred': 3,
+              'steps': [{'status': 302, 'loc': U('h1', 'b')}, {'status': 302, 'loc': U(target, 'a'), 'setcookie': False},
+                        {'status': 200}]}
+    ev, outcome = X.run_script(script)
+    exps = [expected(U('h1', 'a')), expected(U('h1', 'b')), expected(U(target, 'a'))]
+    out = []
+    k = 0
+    for e in ev:
+        e = dict(e)
+        if e['e'] == 'send':
+            e['exp'] = exps[min(k, 2)]
+            k += 1
+            e.pop('url', None)
+            e.pop('_authv', None)
+        out.append(e)
+    return {'maxred': 3, 'ev': out}
+
+
 def run_cookie_case(name):
     from drivers.websession import expected
     U = lambda h, p: {'scheme': 'http', 'host': h, 'port': 'def', 'path': p, 'creds': False}
@@ -217,6 +244,9 @@ def run_text_cases(chk, quick):
                 continue        # the cross-default port is exercised as a start URL only (one listener per port)
             sc = {'text': c, 'use': use, 'text_class': text_class(c), 'url_text': text}
             runs.append(('text/' + use, sc, run_one(sc)))
+    for target in ('hs', 'hx'):
+        sc = {'text': {'cookie': 'host-only->' + target}, 'use': 'cookie', 'text_class': 'cookie=related-host-' + target}
+        runs.append(('text/cookie', sc, run_related_host_case(target)))
     for name in sorted(COOKIE_VALUES):
         sc = {'text': {'cookie': name}, 'use': 'cookie', 'text_class': 'cookie=' + name}
         runs.append(('text/cookie', sc, run_cookie_case(name)))
